@@ -6,10 +6,13 @@ import scipy.sparse.csgraph as csg
 from .. import coqrun as cq
 from .. import gen
 
-TECHNIQUE = 'Coq proofs (naive aggregation unbounded; standard / pairwise all graphs <= 4 nodes) + exhaustive small-graph kernel/model correspondence'
+TECHNIQUE = 'Coq proofs (naive and standard aggregation unbounded; pairwise and finer statements all graphs <= 4 nodes) + exhaustive small-graph kernel/model correspondence'
 LEVEL_TEXT = ('Kernel-checked theorems (Props/C12.v).  Unbounded (invariant proof, any number of vertices, any graph with '
               'column indices in range): naive aggregation assigns every vertex to exactly one aggregate 1..c, every aggregate '
-              'contains its root (no empty aggregate, distinct roots) and every member is the root or a neighbour of it.  '
+              'contains its root (no empty aggregate, distinct roots) and every member is the root or a neighbour of it; '
+              'standard aggregation on every SYMMETRIC pattern returns ids in [-1, c), -1 exactly for the vertices without '
+              'off-diagonal connection, every aggregate containing its root, every member within distance 2 of the root '
+              'through members of the same aggregate, and its third pass opens no aggregate.  '
               'Bounded, decided by vm_compute over the complete enumeration with the '
               'bound in each statement: for all symmetric graphs on <= 4 vertices (with and without stored diagonal) '
               'the models of standard, naive and pairwise aggregation return a partition: ids in range, no empty '
@@ -20,14 +23,14 @@ LEVEL_TEXT = ('Kernel-checked theorems (Props/C12.v).  Unbounded (invariant proo
               'kernel) agree exactly with the rebuilt working-tree kernels on every symmetric graph on <= 5 vertices '
               '(6 thorough) and every directed pattern on <= 3 vertices; a partition oracle decides the property on the '
               'public routines incl. multi-pass pairwise (<= 2^matchings) and Lloyd aggregation.')
-LEVEL_NOTE = ('Naive aggregation has an unbounded theorem (every graph, any size); standard and pairwise are bounded (<= 4 '
+LEVEL_NOTE = ('Naive and standard aggregation have unbounded theorems (any size; standard: symmetric pattern); pairwise is bounded (<= 4 '
               'vertices); the tie to the code is the exhaustive <= 5/6-vertex correspondence.  Lloyd / balanced Lloyd: oracle only.')
 RULE = ('complete enumeration of symmetric graphs on 1..5 (6 thorough) vertices with/without diagonal and of directed '
         'patterns on <= 3 vertices: standard, naive, pairwise (tied integer weights) kernels == Gallina model exactly; '
         'public standard/naive/pairwise/lloyd aggregation on random symmetric strength graphs (stars, cliques, isolated '
         'vertices, components) and nonsymmetric M-matrices -> partition oracle.  Non-trivial: graph has an edge.')
 TRUSTED = ['scipy.sparse.csgraph (oracle side only)', 'SciPy coo->csr conversion in the Python wrappers']
-PARTIAL = ['standard and pairwise aggregation: theorems bounded to <= 4 vertices (naive: unbounded)', 'Lloyd aggregation: oracle only']
+PARTIAL = ['pairwise aggregation: theorem bounded to <= 4 vertices (naive, standard: unbounded)', 'Lloyd aggregation: oracle only']
 HEADER = ('From Coq Require Import ZArith List.\nImport ListNotations.\n'
           'Require Import PV.Base.Ops PV.Model.GraphRun PV.Model.GraphRun2.\nOpen Scope Z_scope.\n')
 I32 = np.int32
